@@ -1335,6 +1335,14 @@ class Evaluator:
             for p_ in parts[1:]:
                 out = c.mk(("concat",), (out, p_))
             return out
+        if self.exact and isinstance(e, (ast.ListComp, ast.GeneratorExp)) and len(e.generators) == 1 and not g0.ifs \
+                and isinstance(g0.target, ast.Name) and not getattr(g0, "is_async", 0):
+            # the same over a name that is bound to a short display:  pair = [a, b]; [f(x) for x in pair]
+            it0 = self._t(g0.iter, at, R)
+            h0 = c.head_of(it0)
+            if h0 and h0[0] in ("list", "tuple") and len(h0) == 1 and 1 <= len(c.args_of(it0)) <= 4 and \
+                    not any((c.head_of(x) or ("",))[0] == "star" for x in c.args_of(it0)):
+                return c.mk(("list",), [self.with_bound({g0.target.id: el})._t(e.elt, at, R) for el in c.args_of(it0)])
         opened = 0
         try:
             for g in e.generators:
@@ -1607,10 +1615,13 @@ class Evaluator:
         if self.exact and name in ("in", "notin"):
             # membership in a short literal collection of constants is a disjunction of equalities (x in ["a"] is x == "a")
             hb = c.head_of(b)
-            if hb and hb[0] in ("list", "tuple", "set") and 1 <= len(c.args_of(b)) <= 4 and \
+            if hb and hb[0] in ("list", "tuple", "set") and 1 <= len(c.args_of(b)) and len(hb) == 1 and \
                     all(x.is_const() or (c.head_of(x) or ("",))[0] in ("str", "const") for x in c.args_of(b)):
-                parts = [self._cmpn("eq" if name == "in" else "ne", a, x) for x in c.args_of(b)]
-                return parts[0] if len(parts) == 1 else self._bool("or" if name == "in" else "and", parts)
+                if len(c.args_of(b)) <= 4:
+                    parts = [self._cmpn("eq" if name == "in" else "ne", a, x) for x in c.args_of(b)]
+                    return parts[0] if len(parts) == 1 else self._bool("or" if name == "in" else "and", parts)
+                # a longer table of literals: the kind of display (list / tuple / set) and the order are immaterial
+                b = c.mk(("tuple",), sorted(c.args_of(b), key=lambda r: r.key()))
         return c.mk(("cmp", name), (a, b))
 
     # ------------------------------------------------------------ attributes
@@ -1925,6 +1936,13 @@ class Evaluator:
                 return c.const(len(c.args_of(pos[0])))
             if h0 and h0[0] == "set" and not c.args_of(pos[0]):
                 return c.const(0)
+        if fname in ("all", "any") and len(pos) == 1 and not star and not kws and self.exact:
+            h0 = c.head_of(pos[0])
+            if h0 and h0[0] in ("list", "tuple") and len(h0) == 1 and 1 <= len(c.args_of(pos[0])) <= 4 and \
+                    not any((c.head_of(x) or ("",))[0] == "star" for x in c.args_of(pos[0])) and \
+                    all(self._is_truth_value(x) for x in c.args_of(pos[0])):
+                # all([p, q]) is p and q - for elements that are truth values (of other elements all() returns bool(...) of them)
+                return self._bool("and" if fname == "all" else "or", list(c.args_of(pos[0])))
         if fname in ("set", "list", "tuple", "sorted") and len(pos) == 1 and not star and not kws and self.exact:
             h0 = c.head_of(pos[0])
             if h0 and h0[0] in ("tuple", "list", "set") and not c.args_of(pos[0]):
